@@ -557,7 +557,6 @@ var asiHazards = []string{
 	"for (;a;) break;",
 	"while (a) break; return 1;",
 	"do break; while (a)",
-	"do {} while (!a); return 1;",
 	"switch (a) {}",
 	"switch (a) { default: }",
 	"switch (a) { case 1: case 2: default: case 3: }",
